@@ -592,3 +592,31 @@ package mapping
 //@   ensures [neither-assignable-nor-convertible-fits-nothing] calls(AssignableTo) == 1 && !ret(AssignableTo) && (calls(ConvertibleTo) == 0 || !ret(ConvertibleTo)) ==> !result1
 //@   ensures [pointer-element-is-a-new-pointee] result1 && calls(reflect.New) == 1 ==> result0 == ret(reflect.New) && calls(Set) == 1
 //@   ensures [value-element-as-it-is-or-converted] result1 && calls(reflect.New) == 0 ==> (calls(Convert) == 0 ==> result0 == v) && (calls(Convert) == 1 ==> result0 == ret(Convert))
+
+// ---- the client side of the round trip (marshaler.go) ----
+
+// processMember: a field whose tag parses and whose value validates is ALWAYS sent - stored in the part named by
+// its tag kind under its key - as its value, or as the text of its value for `string` fields; zero values of
+// optional fields included (the server would otherwise fill its default in). Errors send nothing.
+//@ func processMember
+//@   prop C05
+//@   opaque getTag, parseKeyAndOptions, validate, Sprint
+//@   requires ret != nil && forallk(k, string, has(ret, k) ==> ret[k] != nil)
+//@   ensures [parts-stay-maps] forallk(k, string, has(ret, k) ==> ret[k] != nil)
+//@   let tagged = ret(getTag, 1)
+//@   ensures [bad-tag-refused] tagged && ret(parseKeyAndOptions, 2) != nil ==> result == ret(parseKeyAndOptions, 2) && calls(validate) == 0
+//@   ensures [invalid-value-refused] tagged && ret(parseKeyAndOptions, 2) == nil && ret(validate) != nil ==> result == ret(validate)
+//@   ensures [valid-field-always-sent] !tagged || (ret(parseKeyAndOptions, 2) == nil && ret(validate) == nil) ==> result == nil && calls(Interface) == 1 && has(ret, local(tag)) && has(ret[local(tag)], local(key))
+//@   ensures [untagged-under-its-name] !tagged ==> local(key) == field.Name && calls(parseKeyAndOptions) == 0
+//@   ensures [tagged-under-its-key] tagged && result == nil ==> local(key) == ret(parseKeyAndOptions, 0) && local(tag) == ret(getTag, 0)
+//@   ensures [sent-as-is] result == nil && (!tagged || ret(parseKeyAndOptions, 1) == nil || !ret(parseKeyAndOptions, 1).FromString) ==> ret[local(tag)][local(key)] == ret(Interface) && calls(Sprint) == 0
+//@   ensures [string-fields-sent-as-text] result == nil && tagged && ret(parseKeyAndOptions, 1) != nil && ret(parseKeyAndOptions, 1).FromString ==> calls(fmt.Sprint) == 1 && typeis(ret[local(tag)][local(key)], string) && unbox(ret[local(tag)][local(key)], string) == ret(fmt.Sprint)
+
+// Marshal: every field of the struct is processed, in order, into the one result; the first error stops.
+//@ func Marshal
+//@   prop C05
+//@   opaque processMember
+//@   loop 1 invariant ret != nil && forallk(k, string, has(ret, k) ==> ret[k] != nil)
+//@   loop 1 iteration-ensures [field-processed-into-the-result] calls(processMember) == 1 && arg(processMember, 2) == ret && ret(processMember) == nil
+//@   ensures [first-error-stops] result1 != nil ==> result1 == ret(processMember, 0, last) && result0 == nil
+//@   ensures [all-fields] result1 == nil ==> result0 == local(ret) && tail(true)
